@@ -37,7 +37,8 @@ TRANSFORMS = {
     "on_qubits-identity": "(lambda b: (b.add(c.on_qubits(*range(n))), probs(b))[1])(Circuit(n))",
     "on_qubits-shifted": "(lambda b: (b.add(c.on_qubits(*[(q + 1) % (n + 1) for q in range(n)])), probs(b))[1])(Circuit(n + 1))",
     "add-empty": "probs(c + Circuit(n))",
-    "invert-invert": "probs(c.invert().invert()) if False else probs(c.copy(deep=True))",
+    "invert-invert": "probs(c.invert().invert())",
+    "deepcopy-invert-invert": "probs(c.copy(deep=True).invert().invert())",
     "decompose": "probs(c.decompose())",
     "light_cone": "(lambda r: probs(r[0]))(c.light_cone(*meas_qubits))",
     "fuse": "probs(c.fuse())",
